@@ -140,6 +140,30 @@ pub use ts_rs_macros::TS;
 
 pub use crate::export::ExportError;
 
+/// Support for the code generated by `#[derive(TS)]`. Not part of the public API.
+#[doc(hidden)]
+pub mod __private {
+    /// Renders `value` as a double-quoted TypeScript string literal, escaping
+    /// the characters which would otherwise end the literal or break the line.
+    pub fn quote(value: &str) -> String {
+        let mut s = String::new();
+
+        s.push('"');
+        for c in value.chars() {
+            match c {
+                '"' => s.push_str("\\\""),
+                '\\' => s.push_str("\\\\"),
+                '\n' => s.push_str("\\n"),
+                '\r' => s.push_str("\\r"),
+                c => s.push(c),
+            }
+        }
+        s.push('"');
+
+        s
+    }
+}
+
 #[cfg(feature = "chrono-impl")]
 mod chrono;
 mod export;
